@@ -3,6 +3,8 @@ package main
 import (
 	"context"
 	"encoding/json"
+	"fmt"
+	"strconv"
 	"math/rand"
 	"os"
 	"os/exec"
@@ -203,6 +205,30 @@ func costFamilies(rng *rand.Rand, n int) []struct {
 		b := build(n - 8)
 		out = append(out, fam{"v6-ia-nesting", "v6", append(append([]byte{}, hdr6...), b...), 2 * (len(b) / 44)})
 	}
+	// F3b/c: the other identity-association containers (IA_PD / IA prefix, IA_TA / IA address), nested k deep
+	{
+		var pd func(room int) []byte
+		pd = func(room int) []byte {
+			if room < 45+4 {
+				return nil
+			}
+			inner := pd(room - 45)
+			pfx := append(append(make([]byte, 8), 64), make([]byte, 16)...) // IA prefix: pref(4) valid(4) plen(1) prefix(16) options
+			return tlv6(25, append(make([]byte, 12), tlv6(26, append(pfx, inner...))...))
+		}
+		b := pd(n - 8)
+		out = append(out, fam{"v6-iapd-nesting", "v6", append(append([]byte{}, hdr6...), b...), 2 * (len(b) / 45)})
+		var ta func(room int) []byte
+		ta = func(room int) []byte {
+			if room < 36+4 {
+				return nil
+			}
+			inner := ta(room - 36)
+			return tlv6(4, append(make([]byte, 4), tlv6(5, append(make([]byte, 24), inner...))...))
+		}
+		b = ta(n - 8)
+		out = append(out, fam{"v6-iata-nesting", "v6", append(append([]byte{}, hdr6...), b...), 2 * (len(b) / 36)})
+	}
 	// F4: relay messages nested k deep
 	{
 		inner := []byte{1, 1, 2, 3}
@@ -272,12 +298,108 @@ func costFamilies(rng *rand.Rand, n int) []struct {
 	return out
 }
 
+// climbAll runs the hill-climbing search (climb.go) in parallel child processes and returns their best candidates.
+func climbAll(rng *rand.Rand, procs, evals int) []climbCand {
+	type res struct {
+		c   []climbCand
+		err error
+	}
+	ch := make(chan res, procs)
+	for p := 0; p < procs; p++ {
+		seed := rng.Int63()
+		go func() {
+			f, err := os.CreateTemp("", "vh-climb-*")
+			if err != nil {
+				ch <- res{nil, err}
+				return
+			}
+			f.Close()
+			defer os.Remove(f.Name())
+			ctx, cancel := context.WithTimeout(context.Background(), 20*time.Minute)
+			defer cancel()
+			cmd := exec.CommandContext(ctx, os.Args[0], "climb", strconv.FormatInt(seed, 10), strconv.Itoa(evals), f.Name())
+			cmd.Env = append(os.Environ(), "GOMEMLIMIT=2GiB", "GOMAXPROCS=2")
+			if err := cmd.Run(); err != nil {
+				ch <- res{nil, err}
+				return
+			}
+			b, _ := os.ReadFile(f.Name())
+			var c []climbCand
+			err = json.Unmarshal(b, &c)
+			ch <- res{c, err}
+		}()
+	}
+	var all []climbCand
+	for p := 0; p < procs; p++ {
+		r := <-ch
+		if r.err != nil {
+			panic(fmt.Sprint("climb process failed: ", r.err))
+		}
+		all = append(all, r.c...)
+	}
+	return all
+}
+
+// nameExpansion: total length of the domain names in the decoded message (0 if it does not decode)
+func nameExpansion(in []byte) (total int) {
+	defer func() { recover() }()
+	d, err := dhcpv6.FromBytes(append([]byte(nil), in...))
+	if err != nil {
+		return 0
+	}
+	var walk func(v reflect.Value, depth int)
+	walk = func(v reflect.Value, depth int) {
+		if !v.IsValid() || depth > 64 {
+			return
+		}
+		switch v.Kind() {
+		case reflect.Ptr, reflect.Interface:
+			if !v.IsNil() {
+				if l, ok := v.Interface().(*rfc1035label.Labels); ok {
+					for _, s := range l.Labels {
+						total += len(s)
+					}
+					return
+				}
+				walk(v.Elem(), depth+1)
+			}
+		case reflect.Struct:
+			for i := 0; i < v.NumField(); i++ {
+				if v.Type().Field(i).PkgPath == "" {
+					walk(v.Field(i), depth+1)
+				}
+			}
+		case reflect.Slice:
+			if k := v.Type().Elem().Kind(); k == reflect.Ptr || k == reflect.Interface || k == reflect.Struct {
+				for i := 0; i < v.Len(); i++ {
+					walk(v.Index(i), depth+1)
+				}
+			}
+		}
+	}
+	walk(reflect.ValueOf(d), 0)
+	return total
+}
+
 func genC09(o *Out, rng *rand.Rand, tier string) {
 	sizes := []int{1024, 4096, 16384, 65507}
 	reps := 1
+	procs, evals := 4, 12000
 	if tier == "thorough" {
 		sizes = []int{512, 1024, 2048, 4096, 8192, 16384, 32768, 65507}
 		reps = 3
+		procs, evals = 12, 150000
+	}
+	// adversarial search: the best candidates of every island of every search process, measured like the families
+	for _, c := range climbAll(rng, procs, evals) {
+		alloc, retained, ok, killed := measureChild(c.Entry, c.In)
+		fam := "climb-" + c.Island
+		if c.Entry == "v6" && nameExpansion(c.In) > 2*len(c.In) {
+			fam = "v6-domain-list-pointer-fan" // names amplified by compression pointers: the shape of that family
+		}
+		o.Emit(map[string]any{"op": "Cost", "family": fam, "entry": c.Entry, "n": len(c.In), "depth": c.Depth, "accepted": ok,
+			"allocKiB": (alloc + 1023) / 1024, "retainedKiB": (retained + 1023) / 1024, "killed": killed || c.Killed,
+			"score": int(c.Score * 1000)}, "climb-"+c.Island, c.In, true)
 	}
 	for _, n := range sizes {
 		for r := 0; r < reps; r++ {
